@@ -950,7 +950,7 @@ pub fn run(out: &mut Out, tier: &str, seed: u64, prop: &str) {
                 let ext = match pep508_rs::split_extras(&text) { Some((a, b)) => format!("{}:{}", hex(a), hex(b)), None => "none".into() };
                 rc.lines.push(format!("urlhelpers2\t{}", hex(&text)));
                 rc.envs.push(vars.clone());
-                out.impl_out.push(format!("scheme={sch} extras={ext}"));
+                out.impl_out.push(format!("scheme={sch} extras={ext} strip={}", strip_host_hex(&text)));
             }
         }
     }
@@ -1111,6 +1111,12 @@ fn scheme_of(text: &str) -> Option<&str> {
     Some(s)
 }
 
+/// `strip_host` of the implementation, in hex (`panic` if it panics: an in-process call)
+fn strip_host_hex(text: &str) -> String {
+    let t = text.to_string();
+    std::panic::catch_unwind(move || hex(pep508_rs::strip_host(&t))).unwrap_or_else(|_| "panic".into())
+}
+
 /// `split_scheme` / `split_extras` of the implementation against the Lean model's, on one text
 fn url_helpers_case(out: &mut Out, rc: &mut ReqCases, text: &str, vars: &[(String, String)]) {
     out.evaluations += 1;
@@ -1118,7 +1124,7 @@ fn url_helpers_case(out: &mut Out, rc: &mut ReqCases, text: &str, vars: &[(Strin
     let ext = match pep508_rs::split_extras(text) { Some((a, b)) => format!("{}:{}", hex(a), hex(b)), None => "none".into() };
     rc.lines.push(format!("urlhelpers2\t{}", hex(text)));
     rc.envs.push(vars.to_vec());
-    out.impl_out.push(format!("scheme={sch} extras={ext}"));
+    out.impl_out.push(format!("scheme={sch} extras={ext} strip={}", strip_host_hex(text)));
 }
 
 /// the URL-end rule of C18, read from the property statement (not from the code)
